@@ -9,7 +9,7 @@ from fractions import Fraction
 import numpy
 
 from .. import monitor
-from ..core import digest, close
+from ..core import digest, close, scratch_dir
 from . import c01, c15, c17
 
 UTC = datetime.timezone.utc
@@ -28,7 +28,7 @@ META = {
     "deciding": ["lookup:get_rates", "file:magnitudes", "file:total", "history:scaling", "invariant:data=_data*_scale"],
     "exhaustive_tiers": {"quick": {"scaling histories of length <= 3 over 9 operations (6 scalar, 3 array-valued factors)": True}, "thorough": {"scaling histories of length <= 4 over 9 operations (6 scalar, 3 array-valued factors)": True}},
 }
-META["added"] = 'Added: write_dat round trip, quadtree loaders, array-valued scale factors in the exhaustive histories, event_count must be the scalar total, anchors whose scaled value is one ulp below an integer.'
+META["added"] = 'Added: write_dat round trip, quadtree loaders, array-valued scale factors in the exhaustive histories, event_count must be the scalar total, anchors whose scaled value is one ulp below an integer. magnitudes just below a magnitude edge.'
 MANIFEST = {
     "technique": "invariant on live GriddedDataSet objects (data == _data*_scale, _data digest unchanged) evaluated after every public method + boundary recorder on the loaders and get_rates against a per-row writer model + sequential history checker for scale / scale_to_test_date (exhaustive short histories)",
     "level_text": "Generated forecast files (Cartesian and quadtree layouts) are loaded by the real loaders; for every row the rate returned at the row's lower corner (exactly the printed numbers), centre and just-above-face points must be that row's rate, flag-0 cells must lie outside the region, magnitudes must be the file's lower edges in order and totals/marginals must add up; all scaling histories up to length 3 (quick) / 4 (thorough) are enumerated against a two-line reference model while an invariant watches data == _data*_scale and the loaded array's digest.",
@@ -97,7 +97,7 @@ def write_dat(path, case):
 
 def ex_file(ctx, case, seed=0):
     import csep
-    tmp = tempfile.mkdtemp(prefix="c11-", dir=os.environ.get("VERIF_TMP", "/var/tmp"))
+    tmp = scratch_dir("c11-")
     path = os.path.join(tmp, "forecast.dat")
     rc = {"exec": "file", "args": {"case": case, "seed": seed}}
     ctx.current_case = rc
@@ -153,6 +153,11 @@ def check_loaded(ctx, rc, tags, fore, rows, case, rng):
         dx, dy = r_["x1"] - r_["x0"], r_["y1"] - r_["y0"]
         pts = [("lower-corner", r_["x0"], r_["y0"], r_["m"]), ("centre", r_["x0"] + 0.5 * dx, r_["y0"] + 0.5 * dy, r_["m"] + 0.5 * dm),
                ("corner+ulps", float(numpy.nextafter(r_["x0"], 1e9)), float(numpy.nextafter(r_["y0"], 1e9)), float(numpy.nextafter(r_["m"], 1e9)))]
+        if r_["k"] < case["nm"] - 1:
+            # a magnitude a few 1e-6 (and 1e-9) below the row's UPPER magnitude edge: far outside the float round-off tolerance, still this row's bin
+            pts.append(("below-upper-mag-edge", r_["x0"] + 0.4 * dx, r_["y0"] + 0.4 * dy, r_["m"] + dm - (2e-6 if q % 2 else 1e-9)))
+        if r_["k"] == 0:
+            pts.append(("below-lowest-mag-edge", r_["x0"] + 0.4 * dx, r_["y0"] + 0.4 * dy, r_["m"] - 3e-6))
         if r_["k"] == case["nm"] - 1:
             pts.append(("above-last-edge", r_["x0"] + 0.3 * dx, r_["y0"] + 0.6 * dy, r_["m"] + 3.7 * dm))
         for lab, x, y, m in pts:
@@ -160,6 +165,11 @@ def check_loaded(ctx, rc, tags, fore, rows, case, rng):
             ctx.mon("lookup:get_rates", 1)
             ctx.count(1)
             t2 = dict(tags, probe=lab, flag0=r_["flag"] == 0)
+            if lab == "below-lowest-mag-edge":
+                if ok and r_["flag"] != 0:
+                    ctx.violate("a magnitude below the lowest magnitude edge answers a rate lookup", rc, observed={"point": [x, y, m], "rate": float(numpy.asarray(val).ravel()[0])},
+                                expected="ValueError", tags=dict(t2, clause="below-lowest-magnitude"))
+                continue
             if r_["flag"] == 0:
                 if ok:
                     ctx.violate("a cell flagged 0 in the file answers a rate lookup", rc, observed=float(numpy.asarray(val).ravel()[0]), expected="outside the region",
@@ -266,7 +276,7 @@ def ex_quadtree(ctx, kind, seed=0):
     nm = int(r.choice([1, 2, 6]))
     m0, dm = Decimal("4.95"), Decimal("0.1")
     rates = 10 ** r.uniform(-5, 1, (len(qk), nm))
-    tmp = tempfile.mkdtemp(prefix="c11q-", dir=os.environ.get("VERIF_TMP", "/var/tmp"))
+    tmp = scratch_dir("c11q-")
     rc = {"exec": "quadtree", "args": {"kind": kind, "seed": seed}}
     ctx.current_case = rc
     tags = {"layout": "quadtree-" + kind, "n_mag": nm, "single_row_file": len(qk) * nm == 1}
